@@ -489,14 +489,16 @@ func ruleC05Extra(c *Ctx) {
 				continue
 			}
 			n, all := 0, true
-			core.EachInstr(uh, func(i ssa.Instruction) {
-				if mu2, ok := i.(*ssa.MapUpdate); ok && mu2 != mu && sharesSource(mu2.Map, rg.X) {
-					n++
-					if !nonMember(mu2, depth-1) {
-						all = false
+			for _, hf := range c.familyFuncs(uh) {
+				core.EachInstr(hf, func(i ssa.Instruction) {
+					if mu2, ok := i.(*ssa.MapUpdate); ok && mu2 != mu && sharesSourceDeep(mu2.Map, rg.X) {
+						n++
+						if !nonMember(mu2, depth-1) {
+							all = false
+						}
 					}
-				}
-			})
+				})
+			}
 			if n > 0 && all {
 				return true
 			}
